@@ -12,6 +12,73 @@ import project, scenarios
 from c03 import record_runs
 
 
+def momentum_traces(chk, n, name="c04", prefix="trace:"):
+    """Record n NUTS chains, locate every momentum in the chain's stream and validate against MomentumTrace."""
+    scs = scenarios.momentum_scenarios(C.seed() * 4099 + 17, n)
+    raw = record_runs(scs, name)
+    runs = []
+    located = total = searches = 0
+    dims = set()
+    for sc, run_ev in project.read_runs(raw):
+        pe = project.project_momentum(sc, run_ev)
+        if len(pe) > 1:
+            runs.append((sc, pe))
+            for x in pe:
+                if x["e"] == "momentum":
+                    total += 1
+                    if x["found"] == "yes":
+                        located += 1
+                        dims.add(x["dim"])
+                elif x["e"] == "search":
+                    searches += 1
+    def has(pe, kinds):
+        return any(x["e"] == "momentum" and x["found"] in kinds for x in pe)
+    nosync_runs = [r for r in runs if has(r[1], ("nosync",))]
+    bad_runs = [r for r in runs if has(r[1], ("scaled", "rescaled", "affine", "partial", "no"))]
+    if nosync_runs and not bad_runs:
+        # no 32-byte seed handed to new_chain reproduces the first momentum, not even up to scale: the harness cannot tell
+        # where the chain's stream is (a re-seeding refactor, or a momentum that is not a function of the stream at all)
+        raise C.ToolError("%d chains could not be related to any candidate stream (synchronisation lost)" % len(nosync_runs))
+    # chains that cannot be synchronised (dimension < 2 gives no scale-free test) are left out when others show what is wrong
+    runs = [r for r in runs if not has(r[1], ("nosync",))]
+    failures, st = C.validate_runs("MomentumTrace.tla", "MomentumTrace.cfg", runs, name, max_rejections=20)
+    chk.cov["states"] += st["states"]
+    chk.cov["transitions"] += st["generated"]
+    chk.cov["traces_validated_against_impl"] += st["runs_validated"]
+    chk.part("momentum_trace_validation" if name != "c04" else "trace_validation", chains=len(runs), chains_validated=st["runs_validated"], momentum_events=total, located=located,
+             dimensions=sorted(dims), searches=searches, tlc_runs=st["tlc_runs"], wall_s=round(st["wall"], 1), cmd=st["cmd"])
+    chk.cov["evaluations"] += total
+    chk.cov["distinct_nontrivial"] += located
+    if total == 0:
+        raise C.ToolError("no momentum events recorded")
+    for sc, pe in runs[:2]:
+        chk.sample({"scenario": sc, "lines": pe[:8]})
+    os.remove(raw)
+    for f in failures:
+        ev = f["event"]
+        if ev.get("e") == "momentum":
+            if not ev.get("resample"):
+                key = "momentum_not_redrawn"
+            elif not ev.get("ke_ok"):
+                key = "kinetic_energy_not_half_v2"
+            elif ev.get("found") in ("scaled", "rescaled", "affine"):
+                key = "velocity_is_a_rescaled_standard_normal_sample"
+            elif ev.get("found") == "partial":
+                key = "only_part_of_the_momentum_was_redrawn"
+            elif ev.get("found") == "no":
+                key = "velocity_is_not_a_standard_normal_sample_of_the_stream"
+            elif ev.get("found") == "yes":
+                key = "stream_words_reused_or_too_few"
+            else:
+                key = "momentum_unlocated"
+        elif ev.get("e") == "leap":
+            key = "leapfrog_before_momentum"
+        else:
+            key = "unexplained:%s" % ev.get("e")
+        chk.violation(prefix + key, "momentum trace not explained (%s): %s prefix=%s scenario=%s" %
+                      (key, json.dumps(ev), json.dumps(f["prefix"][-4:]), json.dumps(f["meta"])), f)
+
+
 def run(tier):
     chk = C.Check("C04", "other", tier)
     chk.cov["rule"] = ("every momentum event (trajectory start or step-size search) of every recorded NUTS chain: the velocity must be, bit "
@@ -39,70 +106,7 @@ def run(tier):
     rv = C.tlc("MC_Momentum.tla", cfg, "c04_vac", timeout=300)
     if rv["violated"] != "TwoDraws":
         raise C.ToolError("vacuity guard TwoDraws not reachable")
-    n = 90 if tier == "quick" else 6000
-    scs = scenarios.momentum_scenarios(C.seed() * 4099 + 17, n)
-    raw = record_runs(scs, "c04")
-    runs = []
-    located = total = searches = 0
-    dims = set()
-    for sc, run_ev in project.read_runs(raw):
-        pe = project.project_momentum(sc, run_ev)
-        if len(pe) > 1:
-            runs.append((sc, pe))
-            for x in pe:
-                if x["e"] == "momentum":
-                    total += 1
-                    if x["found"] == "yes":
-                        located += 1
-                        dims.add(x["dim"])
-                elif x["e"] == "search":
-                    searches += 1
-    def has(pe, kinds):
-        return any(x["e"] == "momentum" and x["found"] in kinds for x in pe)
-    nosync_runs = [r for r in runs if has(r[1], ("nosync",))]
-    bad_runs = [r for r in runs if has(r[1], ("scaled", "rescaled", "affine", "partial", "no"))]
-    if nosync_runs and not bad_runs:
-        # no 32-byte seed handed to new_chain reproduces the first momentum, not even up to scale: the harness cannot tell
-        # where the chain's stream is (a re-seeding refactor, or a momentum that is not a function of the stream at all)
-        raise C.ToolError("%d chains could not be related to any candidate stream (synchronisation lost)" % len(nosync_runs))
-    # chains that cannot be synchronised (dimension < 2 gives no scale-free test) are left out when others show what is wrong
-    runs = [r for r in runs if not has(r[1], ("nosync",))]
-    failures, st = C.validate_runs("MomentumTrace.tla", "MomentumTrace.cfg", runs, "c04", max_rejections=20)
-    chk.cov["states"] += st["states"]
-    chk.cov["transitions"] += st["generated"]
-    chk.cov["traces_validated_against_impl"] += st["runs_validated"]
-    chk.part("trace_validation", chains=len(runs), chains_validated=st["runs_validated"], momentum_events=total, located=located,
-             dimensions=sorted(dims), searches=searches, tlc_runs=st["tlc_runs"], wall_s=round(st["wall"], 1), cmd=st["cmd"])
-    chk.cov["evaluations"] = total
-    chk.cov["distinct_nontrivial"] = located
-    if total == 0:
-        raise C.ToolError("no momentum events recorded")
-    for sc, pe in runs[:2]:
-        chk.sample({"scenario": sc, "lines": pe[:8]})
-    os.remove(raw)
-    for f in failures:
-        ev = f["event"]
-        if ev.get("e") == "momentum":
-            if not ev.get("resample"):
-                key = "momentum_not_redrawn"
-            elif not ev.get("ke_ok"):
-                key = "kinetic_energy_not_half_v2"
-            elif ev.get("found") in ("scaled", "rescaled", "affine"):
-                key = "velocity_is_a_rescaled_standard_normal_sample"
-            elif ev.get("found") == "partial":
-                key = "only_part_of_the_momentum_was_redrawn"
-            elif ev.get("found") == "no":
-                key = "velocity_is_not_a_standard_normal_sample_of_the_stream"
-            elif ev.get("found") == "yes":
-                key = "stream_words_reused_or_too_few"
-            else:
-                key = "momentum_unlocated"
-        elif ev.get("e") == "leap":
-            key = "leapfrog_before_momentum"
-        else:
-            key = "unexplained:%s" % ev.get("e")
-        chk.violation("trace:" + key, "momentum trace not explained (%s): %s prefix=%s scenario=%s" %
-                      (key, json.dumps(ev), json.dumps(f["prefix"][-4:]), json.dumps(f["meta"])), f)
+    momentum_traces(chk, 90 if tier == "quick" else 6000)
     return chk.finish()
 
 
